@@ -409,6 +409,40 @@ def run(report, index, tier):
              'the program definition does not end in OptionalNewline: the '
              'output would not end with exactly one newline',
              where='unparsers/es5.py:ES5Program')
+    # R20.5 ---------------------------------------------------------------
+    r5 = report.rule('R20.5', 'the level counter starts at zero for every '
+                     'print call (Indentator created per call)', floor=2)
+    rules_mod = index.need('calmjs.parse.rules')
+    from engine.srcindex import need_function
+    fn = need_function(rules_mod, 'indent')
+    inner = [st for st in fn.body if isinstance(st, ast.FunctionDef)]
+    returned = [st.value.id for st in fn.body if isinstance(st, ast.Return)
+                and isinstance(st.value, ast.Name)]
+    closure = [f for f in inner if f.name in returned]
+    if not closure:
+        raise AnalysisError('rules.indent does not return a nested rule '
+                            'function')
+
+    def creates(node):
+        return [n for n in ast.walk(node) if isinstance(n, ast.Call) and
+                isinstance(n.func, ast.Name) and n.func.id == 'Indentator']
+    outer_sites = [n for st in fn.body if st not in inner
+                   for n in creates(st)]
+    r5.check(bool(creates(closure[0])), 'rule closure creates the '
+             'Indentator', 'rules.indent.%s' % closure[0].name,
+             'the rule closure that BaseUnparser.setup() calls on every '
+             'print does not create the Indentator',
+             where='rules.py:indent')
+    r5.check(not outer_sites, 'no Indentator outside the per-call closure',
+             'rules.indent', 'an Indentator is created once per printer '
+             'object (in the outer factory): its level counter survives a '
+             'print call that was abandoned or raised, so the next output '
+             'starts at a non-zero depth', where='rules.py:indent')
+    init = need_function(index.need('calmjs.parse.handlers.indentation'),
+                         '__init__', 'Indentator')
+    r5.check('self._level = 0' in ast.unparse(init),
+             'Indentator starts at level 0', 'Indentator.__init__',
+             'the level counter is not initialised to 0')
     report.extra['exhaustive'] = True
     report.not_decided.append('multi-line tokens (exempt in the statement)')
     report.trusted_base += [
